@@ -144,7 +144,11 @@ class ServeManifest(RequestHandlerBase):
                 if pos != options.updateCount:
                     continue
             else:
-                tm = options.availabilityStartTime.replace(
+                ast = getattr(options, 'availabilityStartTime', None)
+                if not isinstance(ast, datetime.datetime):
+                    # a time of day only has a meaning for a live manifest
+                    continue
+                tm = ast.replace(
                     hour=pos.hour, minute=pos.minute, second=pos.second)
                 mup = options.minimumUpdatePeriod
                 if mup is None:
